@@ -112,13 +112,15 @@ inductive Flt where
   | flate | lzw | a85 | ahx | rl | dct | jpx | jbig2 | ccitt
   deriving DecidableEq, Repr
 
+/-- What `export_image` finds in `LTImage.colorspace` (membership tests, RGB asked before gray). -/
 inductive CS where
   | gray | rgb | cmyk | inlGray | inlRgb | other | none
   deriving DecidableEq, Repr
 
 structure ImgIn where
   filters : List Flt
-  cs : CS
+  cs : CS               -- first of DeviceRGB, RGB, DeviceGray, G that occurs in `image.colorspace`
+  cmykMember : Bool     -- `LITERAL_DEVICE_CMYK in image.colorspace` (only `_save_jpeg` asks this)
   bits : Nat
   w : Nat
   h : Nat
@@ -139,11 +141,10 @@ def rawExt (bits w h : Nat) : Bytes :=
 
 def isRGB (c : CS) : Bool := c == .rgb || c == .inlRgb
 def isGray (c : CS) : Bool := c == .gray || c == .inlGray
-
 /-- `ImageWriter.export_image`: (file name, file content) for an image and a directory listing. -/
 def exportImage (im : ImgIn) (existing : List Bytes) : Except Err (Bytes × Bytes) :=
   if im.filters.getLast? = some .dct then
-    withName existing im.name extJpeg (if im.cs = .cmyk then .error .importError else .ok im.data)
+    withName existing im.name extJpeg (if im.cmykMember then .error .importError else .ok im.data)
   else if im.filters.getLast? = some .jpx then
     withName existing im.name [46, 106, 112, 50] (.error .importError)
   else if im.filters.contains .jbig2 then .error .unmodelled
